@@ -21,9 +21,9 @@ import (
 // Operation kinds of the select part. The two TCP kinds draw from the same
 // group (one shared round-robin position), the UDP kind from the UDP group.
 const (
-	opTCPDialer = iota // group.NewStreamDialer()
-	opTCPDial          // group.DialStream(query address)
-	opUDPSession       // group.NewSession()
+	opTCPDialer  = iota // group.NewStreamDialer()
+	opTCPDial           // group.DialStream(query address)
+	opUDPSession        // group.NewSession()
 )
 
 var opNames = [...]string{"NewStreamDialer", "DialStream", "NewSession"}
@@ -31,7 +31,8 @@ var opNames = [...]string{"NewStreamDialer", "DialStream", "NewSession"}
 type selOp struct {
 	kind      int
 	call, ret int64
-	got       int // fake index handed out, -1 = something that is not a fake of this case
+	got       int // fake index handed out, -1 = something that is not a fake of this case, -2 = the selection panicked
+	note      string
 }
 
 func transportOf(kind int) int {
@@ -83,6 +84,12 @@ type selWorld struct {
 
 // do performs one selection and identifies the fake that was handed out.
 func (w *selWorld) do(kind int) (got int, note string) {
+	defer func() {
+		// a selection that panics (e.g. an index outside the member slice) is reported as "handed out a non-member"
+		if p := recover(); p != nil {
+			got, note = -2, fmt.Sprintf("panic: %v", p)
+		}
+	}()
 	switch kind {
 	case opTCPDialer:
 		d, info := w.tcpGroup.NewStreamDialer()
@@ -156,7 +163,10 @@ func selectCase(e *core.Env, ci int, r *core.RNG, mdl porcupine.Model) {
 
 	rr := w.policy == "round-robin"
 	var issued [2]int // selections made so far per transport
-	var log []string  // sequential ops, for the witness
+	// anchored: some observation so far depended on where the cycle starts (a sequential selection, or a concurrent phase
+	// whose length is not a multiple of n). Until then a mismatch can only mean "the cycle does not start at the first client".
+	var anchored [2]bool
+	var log []string // sequential ops, for the witness
 	detail := func(extra map[string]any) map[string]any {
 		d := map[string]any{"policy": w.policy, "named_clients": w.names, "tcp_members_in_config_order": w.members[0], "udp_members_in_config_order": w.members[1],
 			"selections_before": issued, "sequential_ops": log}
@@ -191,7 +201,7 @@ func selectCase(e *core.Env, ci int, r *core.RNG, mdl porcupine.Model) {
 				want := w.members[t][issued[t]%len(w.members[t])]
 				if got != want {
 					kindSig := "rr_order"
-					if issued[t] == 0 {
+					if !anchored[t] {
 						kindSig = "rr_first_not_first"
 					}
 					viol(kindSig, t, nil, "%s: selection number %d (from 0) of the %s group handed out client %d, cyclic configuration order says client %d", phase, issued[t], transportNames[t], got, want)
@@ -199,6 +209,7 @@ func selectCase(e *core.Env, ci int, r *core.RNG, mdl porcupine.Model) {
 				}
 			}
 			issued[t]++
+			anchored[t] = true
 			seen[t][got] = true
 		}
 		if bad {
@@ -261,7 +272,10 @@ func selectCase(e *core.Env, ci int, r *core.RNG, mdl porcupine.Model) {
 				if !hot {
 					o.call = clock.Add(1)
 				}
-				o.got, _ = w.do(kind)
+				o.got, o.note = w.do(kind)
+				if o.got >= 0 {
+					o.note = ""
+				}
 				if !hot {
 					o.ret = clock.Add(1)
 				}
@@ -289,7 +303,7 @@ func selectCase(e *core.Env, ci int, r *core.RNG, mdl porcupine.Model) {
 				counts[o.got]++
 				p, member := w.pos[t][o.got]
 				if !member {
-					viol("outside_group", t, map[string]any{"goroutines": G, "per_goroutine": K}, "concurrent: %s handed out %d, not a member of %v", opNames[o.kind], o.got, members)
+					viol("outside_group", t, map[string]any{"goroutines": G, "per_goroutine": K, "note": o.note}, "concurrent: %s handed out %d (%s), not a member of %v", opNames[o.kind], o.got, o.note, members)
 					break
 				}
 				if !hot {
@@ -307,47 +321,67 @@ func selectCase(e *core.Env, ci int, r *core.RNG, mdl porcupine.Model) {
 			rec.Class("random/%s/n=%d/concurrent/G=%d/distinct-seen=%d", transportNames[t], n, G, len(counts))
 			continue
 		}
-		// Tickets issued[t] .. issued[t]+total-1 were handed out, each exactly once: the multiset of results is determined.
-		want := map[int]int{}
-		for j := 0; j < total; j++ {
-			want[members[(issued[t]+j)%n]]++
-		}
-		for _, idx := range members {
-			if counts[idx] != want[idx] {
-				lo, hi := total/n, (total+n-1)/n
-				kind := "rr_ticket_multiset"
-				if counts[idx] < lo || counts[idx] > hi {
-					kind = "rr_unfair_counts" // outside floor/ceil of N/n: some client skipped or repeated
+		// judge checks the concurrent phase against a fetch-and-increment counter whose next ticket is position startPos:
+		// tickets startPos .. startPos+total-1 were handed out, each exactly once, so the multiset of results is determined,
+		// and the stamped history must be linearizable against the counter (porcupine).
+		judge := func(startPos int) (kind string, extra map[string]any, text string) {
+			want := map[int]int{}
+			for j := 0; j < total; j++ {
+				want[members[(startPos+j)%n]]++
+			}
+			for _, idx := range members {
+				if counts[idx] != want[idx] {
+					lo, hi := total/n, (total+n-1)/n
+					kind = "rr_ticket_multiset"
+					if counts[idx] < lo || counts[idx] > hi {
+						kind = "rr_unfair_counts" // outside floor/ceil of N/n: some client skipped or repeated
+					}
+					return kind, map[string]any{"goroutines": G, "per_goroutine": K, "hot": hot, "got_counts": fmt.Sprint(counts), "want_counts": fmt.Sprint(want), "selections": total},
+						fmt.Sprintf("concurrent: %d selections by %d goroutines after %d earlier ones: client %d handed out %d times, consecutive tickets give %d (all: got %v want %v)",
+							total, G, issued[t], idx, counts[idx], want[idx], counts, want)
 				}
-				viol(kind, t, map[string]any{"goroutines": G, "per_goroutine": K, "hot": hot, "got_counts": fmt.Sprint(counts), "want_counts": fmt.Sprint(want), "selections": total},
-					"concurrent: %d selections by %d goroutines after %d earlier ones: client %d handed out %d times, consecutive tickets give %d (all: got %v want %v)",
-					total, G, issued[t], idx, counts[idx], want[idx], counts, want)
-				break
+			}
+			if hot {
+				return "", nil, ""
+			}
+			m := mdl
+			m.Init = func() any { return startPos }
+			switch porcupine.CheckOperationsTimeout(m, ops, 20*time.Second) {
+			case porcupine.Illegal:
+				sorted := append([]porcupine.Operation{}, ops...)
+				sort.Slice(sorted, func(a, b int) bool { return sorted[a].Call < sorted[b].Call })
+				var h []string
+				for _, o := range sorted[:min(len(sorted), 80)] {
+					h = append(h, fmt.Sprintf("g%d [%d,%d] pos %d", o.ClientId, o.Call, o.Return, o.Output))
+				}
+				return "rr_not_linearizable", map[string]any{"goroutines": G, "per_goroutine": K, "start_position": startPos, "history(first 80)": h},
+					fmt.Sprintf("concurrent: history of %d selections is not linearizable against fetch-and-increment over %d members", len(ops), n)
+			case porcupine.Unknown:
+				rec.Inconclusive("porcupine-timeout")
+			}
+			return "", nil, ""
+		}
+		kind, extra, text := judge(issued[t] % n)
+		if kind == "" && total%n != 0 {
+			anchored[t] = true
+		}
+		if kind != "" && !anchored[t] {
+			// Nothing was selected before the concurrent phase, so the start of the cycle is not anchored by an observation.
+			// If the phase is a perfect fetch-and-increment from another start position, the only thing wrong is where the
+			// cycle starts: report that under the signature of that reading, not as a lost or repeated ticket.
+			for s := 1; s < n; s++ {
+				if k, _, _ := judge(s); k == "" {
+					kind, text = "rr_first_not_first", fmt.Sprintf("concurrent: %d selections from a fresh group form a perfect cycle that starts at position %d instead of the first configured client", total, s)
+					break
+				}
 			}
 		}
-		if bad {
+		if kind != "" {
+			viol(kind, t, extra, "%s", text)
 			continue
 		}
 		overlap, inverted := false, false
 		if !hot {
-			// fetch-and-increment model, starting at the position the sequential prefix left
-			m := mdl
-			startPos := issued[t] % n
-			m.Init = func() any { return startPos }
-			res := porcupine.CheckOperationsTimeout(m, ops, 20*time.Second)
-			switch res {
-			case porcupine.Illegal:
-				sort.Slice(ops, func(a, b int) bool { return ops[a].Call < ops[b].Call })
-				var h []string
-				for _, o := range ops[:min(len(ops), 80)] {
-					h = append(h, fmt.Sprintf("g%d [%d,%d] pos %d", o.ClientId, o.Call, o.Return, o.Output))
-				}
-				viol("rr_not_linearizable", t, map[string]any{"goroutines": G, "per_goroutine": K, "start_position": startPos, "history(first 80)": h},
-					"concurrent: history of %d selections is not linearizable against fetch-and-increment over %d members", len(ops), n)
-				continue
-			case porcupine.Unknown:
-				rec.Inconclusive("porcupine-timeout")
-			}
 			sort.Slice(ops, func(a, b int) bool { return ops[a].Call < ops[b].Call })
 			for i := 1; i < len(ops); i++ {
 				if ops[i].Call < ops[i-1].Return && ops[i].ClientId != ops[i-1].ClientId {
